@@ -53,6 +53,7 @@ def build_sandbox(base):
     os.symlink("../root2/linkdir", os.path.join(R, "dirlink_root2"))
     os.symlink("../../root2/via_link.txt", os.path.join(R, "sub", "link_root2b"))
     os.symlink("../alias_target2/x2.txt", os.path.join(base, "alias_target", "link_at2"))
+    os.symlink("../outside/dir", os.path.join(base, "alias_target", "aldirlink_out"))
     # index files that are symbolic links: out of the root (must not be served when symlinks are checked) and inside it
     os.makedirs(os.path.join(R, "leakidx"))
     os.symlink("../../outside/secret.txt", os.path.join(R, "leakidx", "index.html"))
@@ -67,10 +68,49 @@ def build_sandbox(base):
 SYMLINK_REACHABLE = {("root2", "via_link.txt"), ("root2", "linkdir/inner2.txt"), ("alias_target2", "x2.txt")}
 SEGS = ["a.txt", "sub", "b.txt", "deep", "c.txt", ".", "..", "", ".dotfile", ".hidden", "link_in", "dirlink_in", "link_out", "dirlink_out", "abs_link_out", "dirlink_out2", "secret.txt", "dir", "inner.txt",
         "al", "alx", "inroot.txt", "at.txt", "al2", "x.txt", "list", "withindex", "index.html", "root2", "r2.txt", "outside", "outside2", "never.txt", "alias_target", "fifo", "sp ace.txt", SPECIAL, "...", "..;", "root",
-        "per%cent.txt", "pl+us.txt", "utfé.txt", "nonexistent", "leakidx", "inidx", "leakidx", "inidx", "a", "l", "l2", "su", "b", "link_root2", "dirlink_root2", "link_root2b", "link_at2", "inner2.txt", "via_link.txt", "x2.txt", "alias_target2", "linkdir", "..\\", "%2e%2e", "..%2f", "%00", "\xff\xfe"]
+        "per%cent.txt", "pl+us.txt", "utfé.txt", "nonexistent", "leakidx", "inidx", "leakidx", "inidx", "a", "l", "l2", "su", "b", "link_root2", "dirlink_root2", "link_root2b", "link_at2", "aldirlink_out", "inner2.txt", "via_link.txt", "x2.txt", "alias_target2", "linkdir", "..\\", "%2e%2e", "..%2f", "%00", "\xff\xfe"]
 
 
-def gen_path(rnd):
+def through_link_paths(box):
+    """request paths (relative to the document root and to the alias targets) that pass THROUGH a symbolic link to a directory and name
+    something below it - found by walking the sandbox the way the kernel resolves it, three link hops deep"""
+    out = []
+    for area, url in (("root", ""), ("alias_target", "/al"), ("alias2", "/al2")):
+        top = os.path.join(box, area)
+        stack = [("", 0)]
+        seen = 0
+        while stack and seen < 400:
+            rel, hops = stack.pop()
+            d = os.path.join(top, rel)
+            try:
+                names = sorted(os.listdir(d))
+            except OSError:
+                continue
+            for nm in names:
+                r2 = rel + "/" + nm if rel else nm
+                full = os.path.join(top, r2)
+                is_link = os.path.islink(full)
+                if os.path.isdir(full):
+                    h2 = hops + (1 if is_link else 0)
+                    if h2 <= 3 and r2.count("/") < 6:
+                        stack.append((r2, h2))
+                    if h2:
+                        out.append(url + "/" + r2 + "/")
+                elif hops and os.path.isfile(full):
+                    out.append(url + "/" + r2)
+                seen += 1
+    return out
+
+
+def gen_path(rnd, through=None):
+    if through and rnd.random() < 0.12:
+        # below a linked directory: the containment of such a path is decided by its intermediate components, not by its last one
+        raw = rnd.choice(through)
+        if rnd.random() < 0.3:
+            k = raw.find("/", 1)
+            if k > 0:
+                raw = raw[:k] + rnd.choice(["/./", "//", "/zz/../"]) + raw[k + 1:]
+        return raw.encode("utf-8", "surrogateescape")
     n = rnd.choice([1, 1, 2, 2, 3, 4, 5, 8])
     segs = [rnd.choice(SEGS) for _ in range(n)]
     if rnd.random() < 0.2:
@@ -138,7 +178,7 @@ def resolve_reference(p):
     return b"/" + b"/".join(out)
 
 
-SYMLINK_NAMES = (b"link_in", b"dirlink_in", b"link_out", b"dirlink_out", b"abs_link_out", b"dirlink_out2", b"link_to_root", b"link_root2", b"dirlink_root2", b"link_root2b", b"link_at2", b"leakidx", b"inidx")
+SYMLINK_NAMES = (b"aldirlink_out", b"link_in", b"dirlink_in", b"link_out", b"dirlink_out", b"abs_link_out", b"dirlink_out2", b"link_to_root", b"link_root2", b"dirlink_root2", b"link_root2b", b"link_at2", b"leakidx", b"inidx")
 
 
 def daemon_relative_root_probe(basedir, exe, windex, res, cnt):
@@ -245,6 +285,7 @@ def worker(args):
                 break
             box = os.path.join(basedir, "box%d_%d" % (windex, cfgi))
             markers = build_sandbox(box)
+            through = through_link_paths(box)
             check_symlink = rnd.random() < 0.6
             listing = rnd.random() < 0.5
             nalias = rnd.choice([0, 1, 2])
@@ -281,7 +322,9 @@ def worker(args):
                             cnt("requests_cutting_a_name_with_a_detour")
                         wire = path
                 else:
-                    path = gen_path(rnd)
+                    path = gen_path(rnd, through)
+                    if path.decode("utf-8", "surrogateescape").rstrip("/") in [t.rstrip("/") for t in through]:
+                        cnt("requests_below_a_linked_directory")
                     wire = encode_path(rnd, path)
                 if len(wire) > 12000:
                     continue
@@ -434,4 +477,4 @@ def run(ck):
               "percent-encoding styles incl. double encoding, over HTTP and (PATH_INFO verbatim, also without leading slash) SCGI; oracles: marker containment, listing only when enabled / no dot-files / escaped, canonical "
               "requests served from the right root, no 5xx, server alive; four real daemons (daemon.enable, double fork, found again through the lock file) with a relative document root ('.' and 'root') asked for every planted file by its absolute file-system path. non-trivial = distinct configurations",
               "requests", "configs", min_evals=8000,
-              required_nonzero=("markers_served", "status_404", "status_200", "listings", "canonical_checked", "listing_escaped_names_seen", "daemon_mode_requests", "daemon_mode_files_served_from_the_root"))
+              required_nonzero=("markers_served", "status_404", "status_200", "listings", "canonical_checked", "listing_escaped_names_seen", "daemon_mode_requests", "daemon_mode_files_served_from_the_root", "requests_below_a_linked_directory"))
